@@ -687,8 +687,19 @@ def schema_ancestors(cls) -> List[type]:
 def resolve_schema(ref: dict) -> type:
     """JSON-able schema reference -> class. {"installed": name} | {"family": [...], "name": member}."""
     if "installed" in ref:
-        return installed_schemas()[ref["installed"]]
-    return build_family(ref["family"])[ref.get("name", "Top")]
+        S = installed_schemas()[ref["installed"]]
+    else:
+        S = build_family(ref["family"])[ref.get("name", "Top")]
+    if ref.get("unversioned"):
+        S = unversioned_handle(S)
+    return S
+
+
+def unversioned_handle(S: type) -> type:
+    """The class `schemas[name]` / `schemas.get(name)` hand out when no version is given: a marker subclass made by the schema metaclass."""
+    from metador_core.plugin.metaclass import UndefVersion
+
+    return UndefVersion._mark_class(S)
 
 
 # --------------------------------------------------------------------------------------------------
